@@ -355,6 +355,28 @@ class Flow:
             return out
         if isinstance(node, ast.JoinedStr):
             return [(st, Opq("fstring"))]
+        if isinstance(node, (ast.ListComp, ast.GeneratorExp)) and len(node.generators) == 1 and isinstance(node.generators[0].target, ast.Name):
+            # a collection of search results stays one: [s.find(sub, pos) for sub in subs], (hit for hit in hits if ...)
+            g = node.generators[0]
+            its = self.ev(st, g.iter)
+            if len(its) == 1 and not isinstance(its[0][1], Exc):
+                s1, itv = its[0]
+                itv = self.deref(s1, itv)
+                s2 = s1.fork()
+                s2.env = dict(s2.env)
+                elem = Opq("find") if isinstance(itv, Opq) and getattr(itv, "findlist", False) else Opq("element")
+                s2.env[g.target.id] = elem
+                try:
+                    evs = self.ev(s2, node.elt)
+                except AnalysisError:
+                    evs = []
+                if len(evs) == 1:
+                    ev_ = self.deref(evs[0][0], evs[0][1])
+                    if (isinstance(ev_, tuple) and ev_ and ev_[0] == "find") or (isinstance(ev_, Opq) and (ev_.src == "find" or getattr(ev_, "findpos", False))):
+                        out_v = Opq(ast.unparse(node)[:40])
+                        out_v.findlist = True  # type: ignore[attr-defined]
+                        return [(s1, out_v)]
+            return [(st, Opq(ast.unparse(node)[:40]))]
         if isinstance(node, (ast.Dict, ast.Set, ast.ListComp, ast.GeneratorExp, ast.DictComp, ast.Lambda)):
             return [(st, Opq(ast.unparse(node)[:40]))]
         if isinstance(node, ast.Starred):
@@ -680,6 +702,14 @@ class Flow:
             if name in ("max", "min"):
                 def pick(s, a, kw):  # noqa: ANN001, ANN202
                     vals = [self.deref(s, x) for x in a]
+                    if len(vals) == 1 and isinstance(vals[0], Opq) and getattr(vals[0], "findlist", False):
+                        # min / max over a collection of search results, with len(input) (or another result) as the default
+                        d = self.deref(s, kw["default"]) if "default" in kw else None
+                        d_ok = d is None or (isinstance(d, tuple) and d and d[0] in ("len_input", "find")) or (isinstance(d, Opq) and (d.src == "find" or getattr(d, "findpos", False)))
+                        if d_ok:
+                            r = Opq("find")
+                            r.findpos = True  # type: ignore[attr-defined]
+                            return [(s, r)]
                     if vals and all((isinstance(v, tuple) and v and v[0] == "find") or (isinstance(v, Opq) and (v.src == "find" or getattr(v, "findpos", False))) for v in vals):
                         return [(s, Opq("find"))]  # the smaller/larger of two search results is a search result
                     return [(s, Opq(ast.unparse(node)[:40]))]
